@@ -517,6 +517,18 @@ class JSInterp:
                     return o.contains(args[0])
                 if m == 'toLowerCase' and not args and (isinstance(o, str) or (is_sym(o) and o.sort() == StrS)):
                     return UF('str.lower', StrS, StrS)(to_z3(o, StrS))
+                if m == 'some' and len(args) == 1 and isinstance(args[0], JSArrow) and isinstance(o, (SymSeq, list)) and len(args[0].params) == 1:
+                    # translation-table entry: xs.some(t => S.has(t)) with S a set of constants  ==  some element of xs is one of the constants
+                    body, prm = args[0].body, args[0].params[0]
+                    if body[0] == 'call' and body[1][0] == 'member' and body[1][2] == 'has' and len(body[2]) == 1 and body[2][0] == ('id', prm):
+                        st = self.ev(body[1][1], args[0].env)
+                        consts = getattr(st, 'concrete', None)
+                        if isinstance(st, SymSet) and consts is not None and all(isinstance(c, str) for c in consts):
+                            if isinstance(o, list):
+                                return any(x in consts for x in o) if all(isinstance(x, str) for x in o) else \
+                                    z3.Or(*[to_z3(x, StrS) == z3.StringVal(c) for x in o for c in consts]) if o else False
+                            return z3.Or(*[z3.Contains(o.cols[0], z3.Unit(z3.StringVal(c))) for c in consts]) if consts else False
+                    raise Unsupported('JS: .some with a callback outside the translation table')
                 raise Unsupported('JS: method .%s on %r' % (m, o))
             raise Unsupported('JS: call form')
         raise Unsupported('JS: expression %s' % k)
